@@ -141,8 +141,9 @@ fn weekday_range(rng: &mut Rng, c: &Cfg, simple: bool) -> String {
 fn holiday(rng: &mut Rng, c: &Cfg) -> String {
     if rng.chance(2, 3) {
         let mut s = "PH".to_string();
-        if c.offsets && rng.chance(1, 4) {
-            s.push_str(&day_offset(rng));
+        if c.offsets && rng.chance(1, 3) {
+            let n = *rng.pick(&[1, 1, 2, 2, 3, 7]);
+            s.push_str(&format!(" {}{} day{}", if rng.chance(1, 2) { "+" } else { "-" }, n, if n == 1 { "" } else { "s" }));
         }
         s
     } else {
@@ -153,10 +154,10 @@ fn holiday(rng: &mut Rng, c: &Cfg) -> String {
 fn weekday_selector(rng: &mut Rng, c: &Cfg, simple: bool) -> String {
     let nw = if rng.chance(3, 4) { 1 } else { 2 };
     let wds = (0..nw).map(|_| weekday_range(rng, c, simple)).collect::<Vec<_>>().join(",");
-    if c.holidays && !simple && rng.chance(1, 5) {
+    if c.holidays && !simple && rng.chance(1, 4) {
         let h = holiday(rng, c);
-        match rng.below(4) {
-            0 => h,
+        match rng.below(5) {
+            0 | 4 => h,
             1 => format!("{h},{wds}"),
             2 => format!("{wds},{h}"),
             _ => format!("{h} {wds}"),
@@ -341,4 +342,25 @@ pub fn sample_lines() -> Vec<String> {
     std::fs::read_to_string("/repo/opening-hours/src/tests/data/sample.txt")
         .map(|s| s.lines().map(|l| l.to_string()).filter(|l| !l.trim().is_empty()).collect())
         .unwrap_or_default()
+}
+
+/// Realistic sentences whose state stays constant for many days between changes, so that the
+/// iterator relies on `next_change_hint` (every selector kind that has a hint, with offsets,
+/// wrapping ranges and steps); `{y}` is replaced by a focus year.
+pub const HINT_TEMPLATES: [&str; 44] = [
+    "24/7; PH off", "24/7; PH +1 day off", "24/7; PH -1 day off", "24/7; PH off; PH +2 days off", "PH 10:00-12:00",
+    "PH +1 day 10:00-12:00", "PH -2 days 00:00-24:00", "SH off; 24/7", "24/7; SH off", "SH 10:00-12:00; PH off",
+    "PH,SH off; Mo-Fr 08:00-18:00", "24/7; PH +7 days closed \"inventory\"", "{y}", "{y}-{y2}", "{y}-{y3}/2", "{y}+", "{y3}-{y}",
+    "{y} 10:00-12:00", "Jan", "Nov-Feb", "Jun-Aug 00:00-24:00", "{y}Dec", "{y}Nov-Feb", "Dec 24-Jan 2", "Dec 24-Jan 2 off; 24/7",
+    "{y} Mar 28-Apr 16 off; 24/7", "{y} Sep 01+", "easter", "easter -2 days-easter +1 day", "24/7; easter off", "Feb 29", "Feb 29 open; Mar 1 closed",
+    "week 1", "week 10-20", "week 2-52/2", "week 50-05", "week 53", "24/7; week 1-26/3 off", "Jan 1 +1 day", "Dec 31 -3 days-Jan 2",
+    "Apr-Oct 00:00-24:00; PH off", "{y}-{y2} Jun: 24/7", "Mo-Su 00:00-24:00; {y} off", "24/7 open \"a\"; {y2} closed \"b\"",
+];
+
+pub fn hint_template(rng: &mut Rng) -> String {
+    let y = rng.range(2019, 2031);
+    rng.pick(&HINT_TEMPLATES)
+        .replace("{y3}", &(y + rng.range(3, 9)).to_string())
+        .replace("{y2}", &(y + rng.range(0, 3)).to_string())
+        .replace("{y}", &y.to_string())
 }
